@@ -13,10 +13,10 @@ import itertools, os, json, time
 from concurrent.futures import ThreadPoolExecutor
 from vlib import *
 
-KINDS = "J0 JC JR JF JCF JRF FC RFE RFN CT XFE XFN PX GT FO DY RP PR FCV RFW JI JG JGF JA JAW FOT JIT JY JYF FCS TG".split()
-JS_KINDS = {"J0", "JC", "JR", "JF", "JCF", "JRF", "JI", "JG", "JGF", "JA", "JAW", "JIT", "JY", "JYF"}
-SWALLOW = {"JC", "JCF", "JA", "FCS"}  # JA: an async function absorbs the exception into its promise; FCS: native frame drops the error
-RETHROW = {"JR", "JRF", "FCV"}        # new *Exception (new stack), same value
+KINDS = "J0 JC JR JF JCF JRF FC RFE RFN CT XFE XFN PX GT FO DY RP PR FCV RFW JI JG JGF JA JAW FOT JIT JY JYF FCS TG JIU JGT".split()
+JS_KINDS = {"J0", "JC", "JR", "JF", "JCF", "JRF", "JI", "JG", "JGF", "JA", "JAW", "JIT", "JY", "JYF", "JIU", "JGT"}
+SWALLOW = {"JC", "JCF", "JA", "FCS", "JIU"}  # JA: an async function absorbs the exception into its promise; FCS: native frame drops the error
+RETHROW = {"JR", "JRF", "FCV", "JGT"}        # new *Exception (new stack), same value
 REWRAP = {"RFW"}                      # value replaced by a GoError around fmt.Errorf("%w", err)
 SPLIT = {"PR", "JAW"}                 # the rest of the chain runs as a promise job
 ENTRIES = ["RS", "CA", "EX"]
@@ -176,6 +176,9 @@ def spec_oracle(line, out):
                         break
                     if k == "FCV":
                         want = "o"
+                        break
+                    if k == "JGT":     # g.throw(e): raised at the generator's yield (exceptionFromValue: an own stack, even empty, wins)
+                        want = "o" if v[0] == "G" else "Y%d" % i
                         break
             if d.get("top") != want:
                 bad.append(("stack:top-not-last-raise-site", "top=%s want %s" % (d.get("top"), want)))
@@ -372,8 +375,8 @@ def main(ctx):
     ctx.log("regenerated facts:", regen_ok)
     lean_ok, errs = ctx.lake_build(["GojaModel.C14.Props", "GojaModel.C14.Tie", "model_c14"])
     if lean_ok:
-        ctx.audit("GojaModel.C14.Props", expect_min=29)
-        ctx.audit("GojaModel.C14.Tie", expect_min=59)
+        ctx.audit("GojaModel.C14.Props", expect_min=30)
+        ctx.audit("GojaModel.C14.Tie", expect_min=62)
         if ctx.tier == "thorough":
             ctx.leanchecker("GojaModel.C14.Props")
     ctx.log("lean build + audit done:", lean_ok)
